@@ -760,7 +760,9 @@ def drive(check, tier, seed, budget_s=None, workers=None, log=print):
     # 4. minimise (inside the pool, i.e. under the hash seed, that found it), match against known findings, confirm, report
     reported = []
     own_hs = hashseeds[0]
-    for idx, plan, decisions, viol in violations[:6]:
+    for idx, plan, decisions, viol in violations:
+        if len(reported) >= 6:
+            break
         hs = hashseeds[searcher.pool_of(idx)] if isinstance(idx, int) and idx > -1000000 else own_hs
         try:
             if hs == own_hs:
